@@ -166,6 +166,36 @@ def fw(gens, tags, mech=None, **kw):
     return d
 
 
+def fw_monitor_stage(pid, tier, seed, ctx, gens):
+    """run framework generators through harness and driver and return (cases, [(key, replay text)]) for the
+    monitor lines of `pid` only (no correspondence tags): used by checks whose main stream is not fw-gen"""
+    sh = ctx["sh"]
+    total, mons = 0, []
+    for kind, nq, nt in gens:
+        n = pick(tier, nq, nt)
+        rc, text = sh([ctx["HBIN"], "fw-gen", "--kind", kind, "--seed", str(seed), "--cases", str(n)], timeout=7200)
+        if rc != 0:
+            text = text[: text.rfind("\nend\n") + 5] if "\nend\n" in text else ""
+        rc, out = sh([ctx["DBIN"], "fw"], input_bytes=text.encode(), timeout=7200)
+        if rc != 0:
+            continue
+        blocks = None
+        for line in out.split("\n"):
+            ws = line.split()
+            if ws[:1] == ["case"]:
+                total += 1
+            elif len(ws) > 3 and ws[0] == "mon" and ws[1] == pid and ws[2] == "FAIL":
+                if blocks is None:
+                    blocks = split_cases(text)
+                msg = " ".join(ws[4:])
+                key = f"{pid}:{re.sub(r'[0-9]+', 'N', msg)}"
+                mons.append((key, f"monitor {pid} failed on the implementation's trace: {msg}\n" + blocks.get(ws[3], "")))
+    uniq = {}
+    for k, t in mons:
+        uniq.setdefault(k, t)
+    return total, list(uniq.items())
+
+
 def c01_run(gens, tags, mech):
     """C01 = the framework cases plus: every machine of the adversarial validation stream (C12 generator) that
     the implementation accepts is driven through a scripted history by the harness; a panic or hang there is a
